@@ -1074,6 +1074,120 @@ class _Forward:
         return True
 
 
+# ---------------------------------------------------------------------------------------------------- context managers
+def _cm_to_generator(mods: dict[str, Module], log: list[str]) -> None:
+    """`def f(...): return K(args)` with K a class-based context manager whose `__exit__` cannot suppress an exception is read as the
+    generator-based manager it is equivalent to inside a `with` statement:  <enter body>; try: yield; finally: <exit body>."""
+    classes: dict[str, tuple[Module, ast.ClassDef]] = {}
+    for mod in mods.values():
+        for node in mod.tree.body:
+            if isinstance(node, ast.ClassDef):
+                names = {x.name for x in node.body if isinstance(x, FuncNode)}
+                if {"__enter__", "__exit__"} <= names:
+                    classes[node.name] = (mod, node)
+    if not classes:
+        return
+    for mod in mods.values():
+        for q, _, fn in _functions_of(mod):
+            body = [st for st in fn.body if not (isinstance(st, ast.Expr) and isinstance(st.value, ast.Constant))]
+            if len(body) != 1 or not isinstance(body[0], ast.Return) or not isinstance(body[0].value, ast.Call):
+                continue
+            call = body[0].value
+            kname = call.func.id if isinstance(call.func, ast.Name) else None
+            if kname not in classes or call.keywords and any(k.arg is None for k in call.keywords):
+                continue
+            _, K = classes[kname]
+            meth = {x.name: x for x in K.body if isinstance(x, FuncNode)}
+            init, enter, exit_ = meth.get("__init__"), meth["__enter__"], meth["__exit__"]
+            # constructor: plain `self.a = param` stores only
+            bind: dict[str, ast.expr] = {}
+            ok = True
+            if init is not None:
+                ps = _params(init)
+                me = ps[0]
+                args = dict(zip(ps[1:], call.args))
+                args.update({k.arg: k.value for k in call.keywords})
+                for st in init.body:
+                    if isinstance(st, ast.Expr) and isinstance(st.value, ast.Constant):
+                        continue
+                    if isinstance(st, ast.Assign) and len(st.targets) == 1 and isinstance(st.targets[0], ast.Attribute) and isinstance(st.targets[0].value, ast.Name) \
+                            and st.targets[0].value.id == me and isinstance(st.value, ast.Name) and st.value.id in args:
+                        bind[st.targets[0].attr] = args[st.value.id]
+                    else:
+                        ok = False
+            elif call.args or call.keywords:
+                ok = False
+
+            def part(m: ast.FunctionDef, allow_self_return: bool):
+                me_ = _params(m)[0]
+                stmts = [st for st in m.body if not (isinstance(st, ast.Expr) and isinstance(st.value, ast.Constant))]
+                rets = [n for st in stmts for n in ast.walk(st) if isinstance(n, ast.Return)]
+                if rets:
+                    if len(rets) != 1 or rets[0] is not stmts[-1]:
+                        return None
+                    v = rets[0].value
+                    fine = v is None or (isinstance(v, ast.Constant) and v.value in (None, False)) or (allow_self_return and isinstance(v, ast.Name) and v.id == me_)
+                    if not fine:
+                        return None
+                    stmts = stmts[:-1]
+                others = set(_params(m)[1:])
+                out = []
+                for st in stmts:
+                    st2 = _clone(st)
+                    for n in ast.walk(st2):
+                        if isinstance(n, ast.Name) and n.id in others:
+                            return None
+                    class R(ast.NodeTransformer):
+                        bad = False
+
+                        def visit_Attribute(self, node: ast.Attribute):  # noqa: N802
+                            if isinstance(node.value, ast.Name) and node.value.id == me_:
+                                if node.attr in bind and isinstance(node.ctx, ast.Load):
+                                    return _clone(bind[node.attr])
+                                R.bad = True
+                                return node
+                            self.generic_visit(node)
+                            return node
+
+                        def visit_Name(self, node: ast.Name):  # noqa: N802
+                            if node.id == me_:
+                                R.bad = True
+                            return node
+                    R.bad = False
+                    st2 = R().visit(st2)
+                    if R.bad:
+                        return None
+                    out.append(st2)
+                return out
+            en = part(enter, True) if ok else None
+            ex = part(exit_, False) if ok else None
+            if en is None or ex is None:
+                continue
+            # the `as` value of the manager must not be used by the callers (the generator form yields None)
+            used_as = False
+            for m2 in mods.values():
+                for w in ast.walk(m2.tree):
+                    if isinstance(w, ast.With):
+                        for it in w.items:
+                            c = it.context_expr
+                            if isinstance(c, ast.Call) and (isinstance(c.func, ast.Attribute) and c.func.attr == fn.name or isinstance(c.func, ast.Name) and c.func.id == fn.name) and it.optional_vars is not None:
+                                used_as = True
+            if used_as:
+                continue
+            y = ast.Expr(value=ast.Yield(value=None))
+            new_body = [*en, ast.Try(body=[y], handlers=[], orelse=[], finalbody=ex or [ast.Pass()])]
+            doc = [st for st in fn.body if isinstance(st, ast.Expr) and isinstance(st.value, ast.Constant)][:1]
+            fn.body = [*doc, *new_body]
+            fn.decorator_list = [*fn.decorator_list, ast.Attribute(value=ast.Name(id="contextlib", ctx=ast.Load()), attr="contextmanager", ctx=ast.Load())]
+            for st in fn.body:
+                ast.copy_location(st, fn)
+            ast.fix_missing_locations(fn)
+            for n in ast.walk(fn):
+                if hasattr(n, "lineno"):
+                    n.lineno = max(n.lineno, fn.lineno)
+            log.append(f"{mod.relpath} {q}: class-based context manager {kname} read as the equivalent generator-based manager")
+
+
 def canonicalise(mods: dict[str, Module]) -> dict:
     """Align names with the reference inventory and inline new helpers, in place. Returns a report for the evidence."""
     inv = load_inventory()
@@ -1082,11 +1196,14 @@ def canonicalise(mods: dict[str, Module]) -> dict:
     ren = compute_renames(mods, inv)
     apply_renames(mods, ren)
     loc_log: list[str] = []
+    cm_log: list[str] = []
+    _cm_to_generator(mods, cm_log)
     align_locals(mods, inv, loc_log)
     inl = Inliner(mods, inv)
     inl.run()
     fwd_log: list[str] = []
     _Forward(mods, inv, fwd_log).run()
+    fwd_log.extend(cm_log)
     if ren or loc_log or fwd_log or inl.log:
         for mod in mods.values():
             ast.fix_missing_locations(mod.tree)
